@@ -157,6 +157,40 @@ class ExprBuilder:
         return X(("other", rv.get("str", k)))
 
 
+def captured_expr(facts, clo, name):
+    """What the variable `name` captured by closure `clo` is in its parent function: the parent's expression for the
+    operand the closure value was built from (reference wrappers left in place), or None."""
+    parent = facts.fns.get(clo.d.get("parent"))
+    if parent is None:
+        return None
+    for bb, j, st in parent.stmts():
+        if st["k"] == "assign" and st["rv"]["k"] == "agg" and st["rv"].get("closure") == clo.path:
+            caps = st["rv"].get("captures") or []
+            if name in caps and caps.index(name) < len(st["rv"]["ops"]):
+                return ExprBuilder(parent).operand(st["rv"]["ops"][caps.index(name)])
+    return None
+
+
+def call_sites(facts, f, callee):
+    """Where `f` runs `callee`: [(block in f, unit, call)] — directly, or inside a closure that a call of `f` consumes (the
+    block is then that of the consuming call: `iter.map(|x| callee(x))`)."""
+    out = [(c.bb, f, c) for c in f.calls_to(callee)]
+    eb = None
+    for g in facts.closures_of(f.path):
+        inner = g.calls_to(callee)
+        if not inner:
+            continue
+        eb = eb or ExprBuilder(f)
+        # the closure of f itself that g is, or sits in
+        rest = g.path[len(f.path):].split("::{closure")
+        top = f.path + "::{closure" + rest[1] if len(rest) > 1 else g.path
+        for c in f.calls():
+            if any(x.k == "closure" and x[1] == top for a_ in c.args for x in walk(eb.operand(a_))):
+                out += [(c.bb, g, ic) for ic in inner]
+                break
+    return out
+
+
 def walk(x, seen=None):
     """Pre-order walk over an expression DAG."""
     if seen is None:
@@ -942,6 +976,12 @@ def combinator_model(facts, inner=None, depth=0, field_model=None, callees=None)
                 return a0
             if va == "Err":
                 return V("Err", None)
+            return None
+        if p.endswith("Option::transpose"):
+            if va == "None":
+                return V("Ok", V("None", None))
+            if va == "Some" and a0[2] is not None and a0[2][0] == "v":
+                return V("Ok", V("Some", a0[2][2])) if a0[2][1] == "Ok" else (V("Err", a0[2][2]) if a0[2][1] == "Err" else None)
             return None
         if p.endswith(("Option::unwrap_or", "Result::unwrap_or")):
             if va in ("None", "Err"):
